@@ -88,6 +88,23 @@ fn exec_server(c: &Case, active: &crate::findings::Active) -> CaseResult {
     let dbs: Vec<usize> = vec![0, 1, 3, 15];
     let d1 = match dump::dump_server(&mut cl, &dbs) {
         Ok(d) => d,
+        // a reply of a few megabytes that does not arrive in 20 s on a busy machine says nothing
+        // about the snapshot: once more on a fresh connection with two minutes of patience, and
+        // if it still does not come the case is inconclusive (liveness is C05's and C06's)
+        Err(e) if e.contains("<no reply>") => {
+            let mut patient = match server.client() {
+                Ok(c) => c,
+                Err(e) => return CaseResult::infra(e.to_string()),
+            };
+            patient.default_timeout = Duration::from_secs(120);
+            match dump::dump_server(&mut patient, &dbs) {
+                Ok(d) => {
+                    cl = patient;
+                    d
+                }
+                Err(e2) => return CaseResult::infra(format!("dump before SAVE: {} / {}", e, e2)),
+            }
+        }
         Err(e) => return CaseResult::fail(format!("dump before SAVE: {}", e), "dump-failed"),
     };
     let p1 = match pttl_pass(&mut cl, &data, t0) {
@@ -116,6 +133,22 @@ fn exec_server(c: &Case, active: &crate::findings::Active) -> CaseResult {
     cl.default_timeout = Duration::from_secs(20);
     let d2 = match dump::dump_server(&mut cl, &dbs) {
         Ok(d) => d,
+        Err(e) if e.contains("<no reply>") => {
+            // as before SAVE: patience first, then inconclusive. (TTL keys read this late are
+            // judged by their own time windows, which the PTTL pass below measures itself.)
+            let mut patient = match server.client() {
+                Ok(c) => c,
+                Err(e) => return CaseResult::infra(e.to_string()),
+            };
+            patient.default_timeout = Duration::from_secs(120);
+            match dump::dump_server(&mut patient, &dbs) {
+                Ok(d) => {
+                    cl = patient;
+                    d
+                }
+                Err(e2) => return CaseResult::infra(format!("dump after restart: {} / {}", e, e2)),
+            }
+        }
         Err(e) => return CaseResult::fail(format!("dump after restart: {}", e), "dump-failed"),
     };
     let p2 = match pttl_pass(&mut cl, &data, t0) {
